@@ -7,6 +7,8 @@ import tprog, gen_dag, gen_ops
 tprog.ENTRIES = True        # function / Tensor method / operator / nn layer class
 tprog.SPELLINGS = True
 tprog.LAYOUTS = True      # leaves are handed over in C / Fortran / strided / negative-stride / offset / transposed layouts
+import formulas, formula_cases
+
 PROP = 'C01'
 LEAN_TARGETS = ['Props.C01']
 REQUIRED_THEOREMS = ['Props.C01.transpose_vjp', 'Props.C01.movedim_vjp', 'Props.C01.reshape_vjp', 'Props.C01.slice_vjp',
@@ -67,9 +69,22 @@ def finish(c, rng):
     return c
 
 
+FORMULA_THEOREMS = ['src_add_left_vjp', 'src_add_right_vjp', 'src_mul_left_vjp', 'src_mul_right_vjp', 'src_neg_vjp', 'src_clone_vjp', 'src_pow_vjp',
+                    'src_rpow_vjp', 'src_exp_vjp', 'src_log_vjp', 'src_sqrt_vjp', 'model_applies_src_neg', 'model_applies_src_exp', 'model_applies_src_log',
+                    'model_applies_src_sqrt', 'model_applies_src_pow', 'model_applies_src_rpow', 'model_applies_src_add', 'model_applies_src_mul']
+REQUIRED_THEOREMS += ['Props.C01.' + t for t in FORMULA_THEOREMS]
+
+
+def extract():
+    """the arithmetic of the elementwise kernels is re-read from cpu_ops.py and re-emitted as Lean definitions (Generated/KernelFormulas.lean);
+    the src_* / model_applies_src_* theorems are re-checked against them by the build that follows"""
+    return formulas.write()[0]
+
+
 def cases(rng, tier):
     out = []
     per = 14 if tier == 'quick' else 400
+    out += formula_cases.cases(rng, tier, PROP)
     for op in gen_ops.OPS_BASIC:
         for k in range(per * (3 if op in ('slice', 'max', 'min', 'unfold_dim') else 1)):      # the index-expression space is the largest; max / min have tie and dim=None branches
             malformed = rng.chance(0.08)
@@ -93,6 +108,8 @@ def cases(rng, tier):
 
 
 def impl(c):
+    if c.get('kind') == 'formula':
+        return formula_cases.impl(c)
     return tprog.run_program(c['lines'])
 
 
@@ -121,6 +138,8 @@ def distribution(cases):
 
 # ---- oracle: finite differences of the implementation's own forward -------------------------------
 def oracle(c):
+    if c.get('kind') == 'formula':
+        return None                     # the translation is what is compared there; `search` looks for a failing input of the property
     if c['nout'] == 0:
         return None
     P = gen_dag.Prog()
@@ -187,6 +206,7 @@ def oracle(c):
 
 
 def search(rng, tier):
+    yield from formula_cases.pair_search(rng, tier, PROP)
     for op in gen_ops.OPS_BASIC:
         for _ in range(12):
             c = finish(build(rng, op, False), rng)
@@ -208,7 +228,11 @@ def _fix(c):
 
 
 def matches_known(k, fail): return k.get('key') == fail.get('key')
-def rerun_known(k): return oracle(_fix(k['witness'])) is not None
+def rerun_known(k):
+    if k['witness'].get('kind') == 'formula-pair': return formula_cases.replay_pair(k['witness'])['fails']
+    return oracle(_fix(k['witness'])) is not None
 def replay(fail):
+    if fail['case'].get('kind') == 'formula-pair':
+        return formula_cases.replay_pair(fail['case'])
     f = oracle(_fix(fail['case']))
     return {'fails': f is not None, 'now': f}
